@@ -938,6 +938,8 @@ def e12(e: Engine, rep: Report):
         ok = any(isinstance(x, ast.Constant) and x.value is True or
                  (isinstance(x, ast.Constant) and x.value == 1)
                  for x in extra)
+        # (BytesHeaderParser / HeaderParser never look past the headers)
+        ok = ok or 'HeaderParser' in ast.unparse(n.ast.func.value)
         rep.check(ok, 'E12', where, '`%s` is given headersonly' % n.text(40),
                   'the header block is parsed without headersonly: for a '
                   'top-level Content-Type of message/* the parser turns the '
